@@ -73,6 +73,22 @@ def wh_check(pid, tier, seed, t0):
         for c in orc["corners"]:
             corners[c] += 1
     crashed = [s for s in eng["shards"] if s["rc"] != 0]
+    # a harness process that died inside the library (abort on a violated unchecked precondition, segfault,
+    # double free caught by the system allocator): the operation it was executing is the failing input
+    for sh_ in crashed:
+        try:
+            tr = wh.parse_trace(sh_["impl"]) if os.path.exists(sh_["impl"]) else []
+            if tr:
+                cid = tr[-1]["id"]
+                done = len(tr[-1]["steps"])
+            else:
+                cid, done = sh_["first"], 0
+            body = [l for l in eng["cases"][cid] if not l.startswith("%")]
+            if done < len(body):
+                viol.append((cid, done, "the harness process died (exit status %s: %s) while the library executed `%s`"
+                             % (sh_["rc"], (sh_["err"] or "").strip().split("\n")[-1][:120], body[done])))
+        except Exception:  # noqa: BLE001
+            pass
     n_impl = len(eng["impl"])
     incomplete = n_impl < len(eng["cases"]) or any(
         len(ic["steps"]) < len([l for l in eng["cases"][i] if not l.startswith("%")])
